@@ -44,7 +44,7 @@ theorem XOk.checkPend {g : G} (hx : XOk g) (h : Nat) :
   · rename_i e h' ks hp
     split
     · obtain ⟨_, hfin, hlive⟩ := hx.pend e h' ks hp
-      have h1 : (ks.filter (fun k => g.finOf k != some (Fin.err e))) = [] := by
+      have h1 : (ks.filter (fun k => g.finOf k != some (Fin.err e) && g.ph.sinkPh k != SinkPh.doneBySelf)) = [] := by
         apply List.filter_eq_nil_iff.2
         intro k hk; simp [(hfin k hk).2]
       rw [h1, liveSrcs_eq_nil hlive]
